@@ -83,4 +83,4 @@ LEVEL_TEXT = ('Bounded symbolic verification of the real parametric PolarGrid co
               'The grid-file constructor is executed on arbitrary file contents of bounded length. chooseNumberOfLevels is also executed on SYMBOLIC node counts (nr <= 300, ntheta <= 128 in quick): for every size it either throws or reports a level count the grid admits.')
 LEVEL_NOTE = 'grid parameters enumerated in small ranges, real parameters symbolic; text round trip of grid files not decided (no IR for stream formatting)'
 TECHNIQUE = 'symbolic execution of LLVM IR (llsym) with path forking and solver-enumerated concretisation + SMT (z3 QF_LRA/QF_NRA)'
-DESIGN_REF = 'DESIGN.md section 6/C18'
+DESIGN_REF = 'DESIGN.md section 0 (status as built: 0.2, 0.5, 0.6) and section 6/C18 (design)'
